@@ -286,3 +286,172 @@ func capturedWrites(fn *Func, lit *ast.FuncLit) []string {
 	})
 	return out
 }
+
+// shadowedErrorResult: in a function whose error result is named, an inner
+// `name := call()` (a different variable of the same name) that receives an
+// error must hand it to a return inside its own scope.  Otherwise the
+// function's later `return name` returns the *outer* variable, which never
+// saw the failure.  Returns the number of shadowing definitions examined.
+func shadowedErrorResult(c *RC, fns []*Func, tag string) int {
+	pr := c.P
+	n := 0
+	for _, fn := range fns {
+		if fn.Body == nil || fn.Type.Results == nil {
+			continue
+		}
+		// named error results
+		var outer []types.Object
+		for _, fld := range fn.Type.Results.List {
+			for _, nm := range fld.Names {
+				if o := fn.Pkg.Info.Defs[nm]; o != nil && typeString(o.Type()) == "error" && nm.Name != "_" {
+					outer = append(outer, o)
+				}
+			}
+		}
+		if len(outer) == 0 {
+			continue
+		}
+		idx := 0
+		inspectNoLit(fn.Body, func(nd ast.Node) bool {
+			as, ok := nd.(*ast.AssignStmt)
+			if !ok || as.Tok != token.DEFINE {
+				return true
+			}
+			hasCall := false
+			for _, r := range as.Rhs {
+				if _, isCall := ast.Unparen(r).(*ast.CallExpr); isCall {
+					hasCall = true
+				}
+			}
+			if !hasCall {
+				return true
+			}
+			for _, l := range as.Lhs {
+				id, ok := l.(*ast.Ident)
+				if !ok {
+					continue
+				}
+				inner := fn.Pkg.Info.Defs[id]
+				if inner == nil || typeString(inner.Type()) != "error" {
+					continue
+				}
+				shadows := false
+				for _, o := range outer {
+					if o.Name() == inner.Name() && o != inner {
+						shadows = true
+					}
+				}
+				if !shadows {
+					continue
+				}
+				// only where the function goes on to return the outer variable (by name,
+				// or with a bare return) after this point: then the caller's verdict
+				// depends on a variable that cannot have seen this failure
+				relies := false
+				inspectNoLit(fn.Body, func(m ast.Node) bool {
+					r, ok := m.(*ast.ReturnStmt)
+					if !ok || r.Pos() < as.End() {
+						return true
+					}
+					if len(r.Results) == 0 {
+						relies = true
+					}
+					for _, e := range r.Results {
+						if i2, ok := ast.Unparen(e).(*ast.Ident); ok {
+							for _, o := range outer {
+								if fn.Pkg.Info.Uses[i2] == o {
+									relies = true
+								}
+							}
+						}
+					}
+					return true
+				})
+				if !relies {
+					continue
+				}
+				idx++
+				n++
+				// the scope of the inner variable: the innermost enclosing statement that owns it
+				var scope ast.Node = fn.Body
+				for _, p := range pathTo(fn.Body, as) {
+					switch s := p.(type) {
+					case *ast.IfStmt:
+						if s.Init == ast.Stmt(as) {
+							scope = s
+						}
+					case *ast.SwitchStmt:
+						if s.Init == ast.Stmt(as) {
+							scope = s
+						}
+					case *ast.ForStmt:
+						if s.Init == ast.Stmt(as) {
+							scope = s
+						}
+					case *ast.BlockStmt:
+						for _, st := range s.List {
+							if st == ast.Stmt(as) {
+								scope = s
+							}
+						}
+					case *ast.CaseClause:
+						for _, st := range s.Body {
+							if st == ast.Stmt(as) {
+								scope = s
+							}
+						}
+					}
+				}
+				handed := false
+				inspectNoLit(scope, func(m ast.Node) bool {
+					switch s := m.(type) {
+					case *ast.ReturnStmt:
+						for _, r := range s.Results {
+							ast.Inspect(r, func(x ast.Node) bool {
+								if i2, ok := x.(*ast.Ident); ok && fn.Pkg.Info.Uses[i2] == inner {
+									handed = true
+								}
+								return true
+							})
+						}
+					case *ast.AssignStmt:
+						// stored somewhere that outlives the scope (a field, an outer variable)
+						for i, r := range s.Rhs {
+							uses := false
+							ast.Inspect(r, func(x ast.Node) bool {
+								if i2, ok := x.(*ast.Ident); ok && fn.Pkg.Info.Uses[i2] == inner {
+									uses = true
+								}
+								return true
+							})
+							if uses && i < len(s.Lhs) {
+								if _, isSel := s.Lhs[i].(*ast.SelectorExpr); isSel {
+									handed = true
+								}
+								if li, isId := s.Lhs[i].(*ast.Ident); isId && s.Tok == token.ASSIGN && fn.Pkg.Info.Uses[li] != inner {
+									handed = true
+								}
+							}
+						}
+					case *ast.CallExpr:
+						// passed to the task/scheduler (task.Error(err), fn(err)) counts as handed on
+						// unless the callee is a logger
+						cn := fn.Pkg.CalleeName(s)
+						if strings.Contains(cn, "log.") || strings.HasPrefix(cn, "fmt.") {
+							return true
+						}
+						for _, a := range s.Args {
+							if i2, ok := ast.Unparen(a).(*ast.Ident); ok && fn.Pkg.Info.Uses[i2] == inner {
+								handed = true
+							}
+						}
+					}
+					return true
+				})
+				c.Check(handed, fmt.Sprintf("%s|%s#%d", fn.QName(), tag, idx), pr.Pos(as.Pos()), "the error received here is held in an inner variable that shadows the function's named result "+inner.Name()+" and never leaves its scope (it is only tested or logged): the function's own `return "+inner.Name()+"` then reports success although the call failed")
+			}
+			return true
+		})
+	}
+	return n
+}
